@@ -108,8 +108,10 @@ pub fn run(args: &Args) {
   vh::set_thread_tag(999);
   let mut reference = std::collections::HashMap::new();
   for (tb, d) in keys.iter() {
-    let p = if *tb == vh::TABLE_LAYER { probe_layer(cdshealpix::nested::get_or_create(*d)) } else { probe_c2v(*d) };
-    reference.insert((*tb, *d), p);
+    // a table left unusable by the race (e.g. a slot never filled: the accessor panics for ever) has no reference value: every
+    // response for that key is then judged wrong, which rejects the history - it must not kill the harness
+    let p = guarded(|| if *tb == vh::TABLE_LAYER { probe_layer(cdshealpix::nested::get_or_create(*d)) } else { probe_c2v(*d) });
+    if let Some(p) = p { reference.insert((*tb, *d), p); }
   }
   let log = vh::take_log();
   // map addresses to small ids, per key
